@@ -103,9 +103,18 @@ int main(int argc, char** argv) {
         if (ei >= 0) v.set_element_index(uint32_t(ei));
         ops[cnt++] = v;
       } else if (k == 'i' && f.size() == 3) {
-        Imm im(int64_t(strtoll(f[2].c_str(), nullptr, 10)));
-        im.set_predicate(uint32_t(strtoul(f[1].c_str(), nullptr, 10)));
-        ops[cnt++] = im;
+        uint32_t pred = uint32_t(strtoul(f[1].c_str(), nullptr, 10));
+        if (pred >= 256) {      // a double immediate: the value is the IEEE-754 binary64 pattern (unsigned decimal)
+          uint64_t bits = strtoull(f[2].c_str(), nullptr, 10);
+          double d; memcpy(&d, &bits, sizeof(d));
+          Imm im(d);
+          im.set_predicate(pred - 256);
+          ops[cnt++] = im;
+        } else {
+          Imm im(int64_t(strtoll(f[2].c_str(), nullptr, 10)));
+          im.set_predicate(pred);
+          ops[cnt++] = im;
+        }
       } else if (k == 'm' && f.size() == 9) {
         uint32_t base = uint32_t(strtoul(f[1].c_str(), nullptr, 10));
         bool has_idx = f[2] == "1";
